@@ -113,7 +113,8 @@ func runC06(r *Result, d *drv.Driver, tier string, seed int64, replay string) {
 	}
 	r.Rule = "sequences of 1..6 valid messages (requests and responses mixed, small and large) written back to back; the concatenation is decoded by successive Decode calls on ONE Decoder, followed by one more call that must report io.EOF: " +
 		"exhaustively for every two-way split offset, and one byte at a time, in random chunks with zero-length reads, and with the last data returned together with EOF (random chunk sizes, and every read request satisfied in full); every fifth stream ends with a message whose last item is an unpadded 24..64-byte string; through a buffered source (plain io.Reader) and an unbuffered one (io.ByteScanner, where the exact bytes consumed per message are compared). " +
-		"Compared with the model's stream decoder and with the values originally encoded. distinct = distinct (sequence, delivery); non-trivial = more than one message"
+		"The transport model of Io.lean (ReadFull loop, LimitReader over chunked sources, about which the chunk-independence theorems are stated) is itself compared with Go's io.ReadFull / io.LimitReader on random chunkings. Compared with the model's stream decoder and with the values originally encoded. distinct = distinct (sequence, delivery); non-trivial = more than one message"
+	ioCorrespondence(r, d, seed, nSeq*50)
 	types := gen.StructTypes()
 	g := gen.New(seed)
 	g.WF = true
